@@ -765,7 +765,7 @@ PROPS["C16"] = dict(
          "integer width, 1200 (thorough 12000) random schemas with a matching value's compact and whitespace-spaced text and an "
          "unrelated value's text, and of the short ones every truncation, every single-byte deletion, substitutions at each position and insertions from a 29-byte structural alphabet; outcome = value or (message, category, line, column). "
          "Targets outside the schema universe (op c16x, found by line coverage of value/de.rs and de.rs; no Lean model, the three-way "
-         "statement itself is evaluated): 20 Rust types — maps keyed by Option<String>, newtype structs around String / i16 / bool, a "
+         "statement itself is evaluated): 22 Rust types — maps keyed by Option<String>, byte buffers, newtype structs around String / i16 / bool, a "
          "unit-variant enum, (), char; Number, Option<Number>, Vec<Number>, Map<String, Value>, Value, IgnoredAny, Cow<str>, Box<str>, a "
          "tuple struct, a unit struct, a struct with Number / Map / skipped fields, a struct borrowing Cow<str>, (i128, u128) — each on a "
          "shared pool of 85 values and on 60 (thorough 480) type-directed values with near misses. "
